@@ -83,11 +83,12 @@ METHODS = ['pseudo equilibrium', 'shgo', 'differential evolution']
 MTAG = {'pseudo equilibrium': 'pseudo-equilibrium', 'shgo': 'shgo', 'differential evolution': 'differential-evolution'}
 DEF_TOLT, DEF_TOLZ = 1e-3, 1e-5
 SLE_X_TOL = 1e-3      # relative; see the measurement note at its use
-# largest relative activity mismatch the listed optimiser-quality entries cover (about 1.35 x the largest seen over
-# ~35 quick and 5 thorough runs: shgo binary 0.22, shgo >=3 chemicals 0.55, differential evolution >=3 chemicals 0.31)
-RESIDUAL_CAP = {('shgo', 'binary'): 0.40,     # shgo with >= 3 chemicals: no cap — the relative mismatch of a trace chemical
-                                              # saturates near 1 (0.757 seen on the unchanged tree); its rate is bounded instead
-                ('differential evolution', 'multicomponent'): 0.45}
+# No magnitude caps on the listed optimiser-quality entries: the relative activity mismatch of a trace chemical saturates
+# near 1 whatever the optimiser does (seen on the unchanged tree: shgo >=3 chemicals 0.757, differential evolution >=3
+# chemicals above 0.45, shgo binary 0.22), so a cap is a false alarm waiting for its seed; the entries are bounded by their
+# max_fraction in known_findings.jsonl (a degraded optimiser shows as a larger share: 0.97*x for shgo 0.114 vs ceiling
+# 0.065; polish=False for differential evolution 0.062 vs 0.04, and a binary result above 2e-2, which is not listed)
+RESIDUAL_CAP = {}
 
 REC = {'on': False}
 STATS = []         # raw oracle numbers of this process (development aid; bounded)
@@ -1095,7 +1096,10 @@ def gen_lle(rng, method_i):
             def nudge_z(f):
                 # change one flow so that the largest change of a mole fraction is f x the composition tolerance
                 i = rng.choice(sorted(flows)); tot = sum(flows.values()); zi = flows[i] / tot
-                flows[i] = flows[i] * (1 + rng.choice([-1, 1]) * f * tZ / (zi * (1 - zi)))
+                step = f * tZ / (zi * (1 - zi))
+                sign = rng.choice([-1, 1])
+                if step >= 0.9: sign = 1          # a chemical present in traces: only upwards (a flow stays positive)
+                flows[i] = flows[i] * (1 + sign * step)
             sc = rng.random()
             probe = rng.random() < 0.14
             if probe:
